@@ -26,6 +26,8 @@ class Canon:
             p = getattr(r, "path", None)
             if p is not None:
                 self.paths[p] = i
+                if getattr(r, "relative", False):
+                    self.paths[r.libname()] = i
         self.own = set()
         for o in list(world.objects) + [h for h in getattr(world, "handle_objs", []) if h is not None]:
             self.own.add(id(o))
